@@ -234,7 +234,12 @@ impl Monitor {
     }
     pub fn sample(&mut self, f: impl FnOnce() -> Value) {
         if self.samples.len() < SAMPLE_CAP {
-            self.samples.push(f());
+            // a sample only illustrates the evidence: if producing it panics inside the library (a changed tree), the
+            // monitors' own verdicts must still be reported
+            match std::panic::catch_unwind(std::panic::AssertUnwindSafe(f)) {
+                Ok(v) => self.samples.push(v),
+                Err(_) => self.samples.push(serde_json::json!({"sample_unavailable": "the library panicked while the illustrative sample was produced"})),
+            }
         }
     }
     /// record a deviation (for max deviation / argmax reporting)
@@ -490,5 +495,9 @@ where
 
 /// Silence the default panic hook (monitors that use catch_unwind install this).
 pub fn quiet_panics() {
+    // PVMON_LOUD_PANICS=1 keeps the default hook (to see where an unexpected panic of the harness itself comes from)
+    if std::env::var_os("PVMON_LOUD_PANICS").is_some() {
+        return;
+    }
     std::panic::set_hook(Box::new(|_| {}));
 }
